@@ -71,6 +71,11 @@ func cipherSizes(id kex.CipherSuiteID) (ss, vs, h int) {
 	return
 }
 
+var (
+	persistFlip  bool
+	persistSuite string // suite name of the sessions being restored (set by the callers that know it)
+)
+
 // persistRoundTrip serialises a session and restores it into a fresh object of the same type.
 func persistRoundTrip(s kex.Session) (kex.Session, error) {
 	m, ok := s.(encoding.BinaryMarshaler)
@@ -89,6 +94,14 @@ func persistRoundTrip(s kex.Session) (kex.Session, error) {
 		fresh = new(kex.ECDHSession)
 	case *kex.OAEPSession:
 		fresh = new(kex.OAEPSession)
+	}
+	// the SQLite store restores into an object it creates with a FIXED cipher (kex.Suite(name).New(nil, 1)): the restored
+	// session must not keep anything of the receiving object. Alternate between the two ways of making the receiver.
+	persistFlip = !persistFlip
+	if persistFlip && persistSuite != "" {
+		if alt := kex.Suite(persistSuite).New(nil, kex.A128GcmCipher); alt != nil {
+			fresh = alt
+		}
 	}
 	if err := fresh.(encoding.BinaryUnmarshaler).UnmarshalBinary(data); err != nil {
 		return nil, err
@@ -235,8 +248,23 @@ func RunC14(c *core.Ctx) {
 			}
 			tapes := [][2][]byte{{rnd(psize), rnd(psize)}, {append(make([]byte, 5), rnd(psize-5)...), rnd(psize)}, {rnd(psize), append(make([]byte, psize-1), 3)},
 				{make([]byte, psize), rnd(psize)}, {rnd(psize), append(make([]byte, psize-1), 1)}}
+			if cidx == 0 || cidx == 6 {
+				// exponents whose shared secret g^(ab) mod p starts with a zero byte (1 draw in 256): the KDF takes the
+				// secret at the modulus' full length, leading zeros included
+				ta := rnd(psize)
+				gA := new(big.Int).Exp(big.NewInt(2), new(big.Int).SetBytes(ta), prime)
+				for tries := 0; tries < 4000; tries++ {
+					tb := rnd(psize)
+					sh := new(big.Int).Exp(gA, new(big.Int).SetBytes(tb), prime)
+					if len(sh.Bytes()) < (prime.BitLen()+7)/8 {
+						tapes = append(tapes, [2][]byte{ta, tb})
+						c.Count("dh_leading_zero_secret", suite)
+						break
+					}
+				}
+			}
 			for ti, t := range tapes {
-				if c.Quick() && ti > 2 && cidx > 1 {
+				if c.Quick() && ti > 2 && ti < 5 && cidx > 1 {
 					continue
 				}
 				base := core.Params{"suite": suite, "cipher": fmt.Sprint(int64(ci.id)), "ta": hex.EncodeToString(t[0]), "tb": hex.EncodeToString(t[1])}
@@ -353,6 +381,8 @@ func RunC14(c *core.Ctx) {
 					if sc.rsa != nil {
 						pub = &sc.rsa.PublicKey
 					}
+					persistSuite = sc.suite
+					defer func() { persistSuite = "" }()
 					owner := kex.Suite(sc.suite).New(nil, ci.id)
 					xA, err := owner.Parameter(rand.Reader, pub)
 					if err != nil {
